@@ -96,9 +96,20 @@ class _Frozen(list):
         pass
 
 
+class Falsy(int):
+    """an item that is falsy although it is an item (as an all-default message is, or 0, or ""): what travels through the
+    channel for every even abstract item number"""
+    def __bool__(self):
+        return False
+
+
+def _wrap(n):
+    return Falsy(n) if isinstance(n, int) and n % 2 == 0 else n
+
+
 def _item(r):
     """items are positive ints; anything else a receiver is handed (a private sentinel, say) is logged as item -1, which nobody sent"""
-    return r if isinstance(r, int) and not isinstance(r, bool) else -1
+    return int(r) if isinstance(r, int) and not isinstance(r, bool) else -1
 
 
 class World:
@@ -177,10 +188,10 @@ class World:
     async def do(self, op):
         k = op["op"]
         if k == "send":
-            await self.ch.send(op["item"])
+            await self.ch.send(_wrap(op["item"]))
             return ("ok", 0)
         if k == "sendfrom":
-            await self.ch.send_from(list(op["items"]), close=op["close"])
+            await self.ch.send_from([_wrap(x) for x in op["items"]], close=op["close"])
             return ("ok", 0)
         if k in ("recv", "recvloop"):
             r = await self.ch.receive()
